@@ -244,7 +244,11 @@ def run(ctx):
             ctx.count("c01.multiseg_with_deletions")
         sig = model.layout_sig(h)
         try:
-            with built.ix.searcher(weighting=wobj) as s:
+            psz = None if big else model.partsize_for(idx)
+            if psz is not None:
+                ctx.count("c01.small_array_parts")
+                wb["array_partsize(default of ArrayUnionMatcher)"] = psz
+            with model.array_partsize(psz), built.ix.searcher(weighting=wobj) as s:
                 if s.doc_count() != len(built.live):
                     ctx.fail("c01.doc_count", "doc_count", wb, "doc_count=%d live=%d" % (s.doc_count(), len(built.live)))
                 for _ in range(14):
